@@ -146,6 +146,15 @@ def parse_ext(R, RID='C06.parse'):
                 if len(cands) == 1:
                     e_ = cands[0].value
                     continue
+                # unpacked from a list whose elements are stripped when it is built:  token, *rest = [t.strip() for ...]
+                unp = [s_ for s_ in own_nodes(f.node) if isinstance(s_, ast.Assign) and any(
+                    isinstance(t, (ast.Tuple, ast.List)) and any(
+                        (isinstance(x_, ast.Name) and x_.id == e_.id) or
+                        (isinstance(x_, ast.Starred) and isinstance(x_.value, ast.Name) and x_.value.id == e_.id)
+                        for x_ in t.elts) for t in s_.targets)]
+                if len(unp) == 1 and isinstance(unp[0].value, (ast.ListComp, ast.GeneratorExp)):
+                    e_ = unp[0].value.elt
+                    continue
                 break
             break
         R.ob(RID, 'the extension token is stripped', okt,
